@@ -163,6 +163,10 @@ impl Shard {
     pub fn time_left(&self) -> bool {
         self.elapsed() < self.args.budget_s
     }
+    /// Open a further time box of `secs` seconds from now (for a part that must run even when an earlier part used the budget).
+    pub fn extend_budget(&mut self, secs: f64) {
+        self.args.budget_s = self.elapsed() + secs * std::env::var("VERIF_BUDGET_SCALE").ok().and_then(|s| s.parse::<f64>().ok()).unwrap_or(1.0);
+    }
     /// Begin a case. Returns false when the case must be skipped (resume after a crash).
     /// `class` is the coarse class used for crash signatures; `case` must be enough to replay.
     pub fn begin(&mut self, class: &str, case: &Value) -> bool {
